@@ -60,6 +60,12 @@ type readerFacts struct {
 	v2       *ssa.TypeAssert
 	v2If     *ssa.If
 	sigNilIf *ssa.If
+	// polarity: index of the successor on which the fact holds
+	mpIdx      int // mp != nil
+	keyIdx     int // InKey != nil
+	v2Idx      int // the frame is a *V2Frame
+	sigOKIdx   int // the signatures are equal
+	sigHereIdx int // the frame carries a signature (Signature != nil)
 }
 
 func collectReaderFacts(c *Ctx) *readerFacts {
@@ -78,48 +84,75 @@ func collectReaderFacts(c *Ctx) *readerFacts {
 	for _, ci := range callsNamed(fn, "(message.ReadWriter).Read") {
 		rf.decode = ci.(*ssa.Call)
 	}
+	rf.sigOKIdx, rf.sigHereIdx = 1, 1
 	for _, iff := range ifsIn(fn) {
-		b, ok := iff.Cond.(*ssa.BinOp)
+		cond, neg := iff.Cond, 0
+		for {
+			u, isU := cond.(*ssa.UnOp)
+			if !isU || u.Op != token.NOT {
+				break
+			}
+			cond, neg = u.X, 1-neg
+		}
+		b, ok := cond.(*ssa.BinOp)
 		if !ok {
-			if e, isE := iff.Cond.(*ssa.Extract); isE && e.Index == 1 {
-				if ta, isTA := e.Tuple.(*ssa.TypeAssert); isTA && ta.X == rf.frame && typeStr(ta.AssertedType) == "*frame.V2Frame" && rf.v2If == nil {
-					rf.v2, rf.v2If = ta, iff
+			if e, isE := cond.(*ssa.Extract); isE && e.Index == 1 {
+				if ta, isTA := e.Tuple.(*ssa.TypeAssert); isTA && sameFrame(ta.X, rf.frame) && typeStr(ta.AssertedType) == "*frame.V2Frame" && rf.v2If == nil {
+					rf.v2, rf.v2If, rf.v2Idx = ta, iff, neg
 				}
 			}
 			continue
 		}
-		if b.Op == token.NEQ && b.X == rf.mp && isNilConst(b.Y) {
-			rf.mpIf = iff
+		if b.Op != token.NEQ && b.Op != token.EQL {
+			continue
 		}
-		if b.Op == token.NEQ && ex(b.X) == "recv.InKey" && isNilConst(b.Y) {
-			rf.inKeyIf = iff
+		// index of the successor on which `X != Y` holds
+		neIdx := neg
+		if b.Op == token.EQL {
+			neIdx = 1 - neg
 		}
-		if (b.Op == token.NEQ || b.Op == token.EQL) && isChecksumPair(b.X, b.Y, rf) {
+		x, y := b.X, b.Y
+		if isNilConst(x) {
+			x, y = y, x
+		}
+		if x == rf.mp && isNilConst(y) {
+			rf.mpIf, rf.mpIdx = iff, neIdx
+		}
+		if ex(x) == "recv.InKey" && isNilConst(y) {
+			rf.inKeyIf, rf.keyIdx = iff, neIdx
+		}
+		if isChecksumPair(b.X, b.Y, rf) {
 			rf.sumIf = iff
-			rf.sumTrue = b.Op == token.NEQ
+			rf.sumTrue = neIdx == 0
 		}
-		if b.Op == token.NEQ && isSigPair(b.X, b.Y) {
-			rf.sigIf = iff
+		if isSigPair(b.X, b.Y) {
+			rf.sigIf, rf.sigOKIdx = iff, 1-neIdx
 		}
-		if b.Op == token.EQL && strings.HasSuffix(ex(b.X), ".Signature") && isNilConst(b.Y) {
-			rf.sigNilIf = iff
+		if strings.HasSuffix(ex(x), ".Signature") && isNilConst(y) {
+			rf.sigNilIf, rf.sigHereIdx = iff, neIdx
 		}
 	}
 	return rf
 }
 
+// sameFrame: a and b denote the frame being parsed (identical values, or identical renderings when a helper's
+// parameter was substituted).
+func sameFrame(a, b ssa.Value) bool {
+	return a == b || (a != nil && b != nil && ex(a) == ex(b))
+}
+
 func isGenChecksum(v ssa.Value, rf *readerFacts) bool {
 	call, ok := v.(*ssa.Call)
-	if !ok || !call.Call.IsInvoke() || call.Call.Method.Name() != "GenerateChecksum" || call.Call.Value != rf.frame {
+	if !ok || !call.Call.IsInvoke() || call.Call.Method.Name() != "GenerateChecksum" || !sameFrame(call.Call.Value, rf.frame) {
 		return false
 	}
 	ce, ok := call.Call.Args[0].(*ssa.Call)
-	return ok && calleeName(&ce.Call) == "(message.ReadWriter).CRCExtra" && ce.Call.Args[0] == rf.mp
+	return ok && calleeName(&ce.Call) == "(message.ReadWriter).CRCExtra" && (ce.Call.Args[0] == rf.mp || ex(ce.Call.Args[0]) == ex(rf.mp))
 }
 
 func isGetChecksum(v ssa.Value, rf *readerFacts) bool {
 	call, ok := v.(*ssa.Call)
-	return ok && call.Call.IsInvoke() && call.Call.Method.Name() == "GetChecksum" && call.Call.Value == rf.frame
+	return ok && call.Call.IsInvoke() && call.Call.Method.Name() == "GetChecksum" && sameFrame(call.Call.Value, rf.frame)
 }
 
 func isChecksumPair(x, y ssa.Value, rf *readerFacts) bool {
@@ -224,7 +257,7 @@ func runC02(c *Ctx) {
 		}
 		r.Check(okFail, "R2.2", "Reader.Read checksum mismatch edge", c.Pos(rf.sumIf.Pos()), "mismatch returns a ReadError and no frame", "the mismatch edge of the checksum comparison does not return (nil, ReadError)")
 		// with the pass edge cut, from the mp != nil true successor nothing below may be reachable
-		start := rf.mpIf.Block().Succs[0]
+		start := rf.mpIf.Block().Succs[rf.mpIdx]
 		reach := reachFrom(start, map[edge]bool{passEdge: true}, nil)
 		bad := ""
 		if rf.decode != nil && reach[rf.decode.Block()] {
@@ -332,10 +365,8 @@ func ruleRejections(c *Ctx, rf *readerFacts, rule string) {
 		"checksum mismatch, decode error) and unmarshal rejects only on transport errors or unknown incompatibility flags; any other rejection would drop well-formed frames", 8)
 	fn := rf.fn
 	kinds := map[string]int{}
-	for _, ret := range retInstrs(fn) {
-		if len(ret.Results) != 2 || isNilConst(ret.Results[1]) || !strings.Contains(ex(ret.Results[1]), "frame.newError") {
-			continue
-		}
+	// one rejection = one site where a ReadError is created (however the returns are merged afterwards)
+	for _, ret := range callsNamed(fn, "frame.newError") {
 		b := ret.Block()
 		kind := ""
 		// the guard: nearest If for which this block needs a specific edge
@@ -356,7 +387,7 @@ func ruleRejections(c *Ctx, rf *readerFacts, rule string) {
 				kind = "wrong-signature"
 			case iff == rf.sigNilIf:
 				kind = "no-signature"
-			case iff == rf.v2If && f:
+			case iff == rf.v2If && ((rf.v2Idx == 0 && f) || (rf.v2Idx == 1 && t)):
 				kind = "not-v2"
 			default:
 				cs := ex(iff.Cond)
@@ -398,15 +429,48 @@ func ruleRejections(c *Ctx, rf *readerFacts, rule string) {
 			if transportError(ret.Results[0], 0) {
 				continue // transport / truncation error
 			}
-			// explicit rejection: only the incompatibility-flag test
-			okFlag := false
-			for _, iff := range ifsIn(um) {
-				if iff.Block().Succs[0] == ret.Block() && strings.Contains(ex(iff.Cond), "IncompatibilityFlag") && name == "V2Frame.unmarshal" {
-					okFlag = true
+			// every error value that can be returned here is a transport error or the explicit rejection of unknown
+			// incompatibility flags (created under the flag test), however the returns are merged
+			var leaves []ssa.Value
+			seenL := map[ssa.Value]bool{}
+			var collect func(v ssa.Value)
+			collect = func(v ssa.Value) {
+				if seenL[v] {
+					return
 				}
+				seenL[v] = true
+				if p, isPhi := v.(*ssa.Phi); isPhi {
+					for _, e := range p.Edges {
+						collect(e)
+					}
+					return
+				}
+				leaves = append(leaves, v)
 			}
-			if !okFlag {
-				bad = c.Pos(ret.Pos())
+			collect(ret.Results[0])
+			for _, lf := range leaves {
+				if isNilConst(lf) || transportError(lf, 0) {
+					continue
+				}
+				okFlag := false
+				var at *ssa.BasicBlock
+				if in, isIn := lf.(ssa.Instruction); isIn {
+					at = in.Block()
+				}
+				for _, iff := range ifsIn(um) {
+					if !strings.Contains(ex(iff.Cond), "IncompatibilityFlag") || name != "V2Frame.unmarshal" {
+						continue
+					}
+					for idx := 0; idx < 2; idx++ {
+						tb := iff.Block().Succs[idx]
+						if tb == ret.Block() || (at != nil && (tb == at || edgeMustPass(um, edge{iff.Block(), tb}, at))) {
+							okFlag = true
+						}
+					}
+				}
+				if !okFlag {
+					bad = c.Pos(ret.Pos())
+				}
 			}
 		}
 		r.Check(bad == "", rule, name+" rejections", c.Pos(um.Pos()), "rejects only truncated input"+map[bool]string{true: " or unknown incompatibility flags", false: ""}[name == "V2Frame.unmarshal"],
